@@ -837,6 +837,15 @@ impl World {
 			self.out.violate("C06", &o, step, msg);
 			return;
 		}
+		// profiles `crash` / `crashsweep` decide C10: "after reconnection every HTLC that was pending
+		// at the crash still resolves correctly: forwarded claims are replayed upstream, outbound
+		// payments reach a truthful terminal event" - what the forwarding, payment and receive
+		// oracles report there is reported under C10
+		if matches!(self.cfg.profile.as_str(), "crash" | "crashsweep") && matches!(property, "C02" | "C03" | "C04") {
+			let o = format!("C10/{}", oracle);
+			self.out.violate("C10", &o, step, msg);
+			return;
+		}
 		self.out.violate(property, oracle, step, msg);
 	}
 
